@@ -30,6 +30,7 @@ pub fn parse_events(log: &str, out_marker: &str) -> Vec<Event> {
     let mut main_tid: Option<&str> = None;
     let mut n_open = 0usize;
     let mut n_write = 0usize;
+    let mut n_unlink = [0usize; 2];
     let mut fdmap: BTreeMap<String, String> = BTreeMap::new();
     let mut evs = vec![];
     for line in log.lines() {
@@ -59,6 +60,17 @@ pub fn parse_events(log: &str, out_marker: &str) -> Vec<Event> {
                 evs.push(Event { syscall: "openat".into(), index: n_open, file: base, for_write });
             } else if fd.parse::<i32>().is_ok_and(|f| f >= 0) {
                 fdmap.remove(fd);
+            }
+        } else if rest.starts_with("unlink(") || rest.starts_with("unlinkat(") {
+            let is_at = rest.starts_with("unlinkat(");
+            n_unlink[is_at as usize] += 1;
+            let path = rest.split('"').nth(1).unwrap_or("");
+            if path.contains(out_marker) {
+                let mut base = path.rsplit('/').next().unwrap_or("").to_string();
+                if base.starts_with(".write_test_generated_") {
+                    base = ".write_test_generated_PID".to_string();
+                }
+                evs.push(Event { syscall: if is_at { "unlinkat".into() } else { "unlink".into() }, index: n_unlink[is_at as usize], file: base, for_write: false });
             }
         } else if let Some(r) = rest.strip_prefix("write(") {
             n_write += 1;
@@ -135,7 +147,7 @@ fn prepare(sc: &Scenario, root: &Path) -> Option<(Project, Project, FileCfg)> {
 }
 
 fn strace_args(log: &Path, inject: Option<String>) -> Vec<String> {
-    let mut v = vec!["-f".to_string(), "-o".to_string(), log.to_string_lossy().to_string(), "-e".to_string(), "trace=openat,write".to_string()];
+    let mut v = vec!["-f".to_string(), "-o".to_string(), log.to_string_lossy().to_string(), "-e".to_string(), "trace=openat,write,unlink,unlinkat".to_string()];
     if let Some(i) = inject {
         v.push("-e".into());
         v.push(i);
@@ -183,6 +195,7 @@ pub fn eval_fault(fc: &FaultCase) -> FaultOutcome {
             l.contains("(INJECTED)")
                 && l.contains(&format!("{}(", fc.event.syscall))
                 && (fc.event.syscall == "write"
+                    || fc.event.syscall.starts_with("unlink")
                     || l.contains(&format!("/{}\"", fc.event.file))
                     || (fc.event.file == ".write_test_generated_PID" && l.contains("/.write_test_generated_")))
         }),
@@ -355,7 +368,9 @@ pub fn run(tier: Tier) -> CheckResult {
         }
         for ev in evs {
             fault_points += 1;
-            let faults: Vec<Fault> = if ev.syscall == "openat" {
+            let faults: Vec<Fault> = if ev.syscall.starts_with("unlink") {
+                vec![Fault::Eacces, Fault::Kill]
+            } else if ev.syscall == "openat" {
                 if tier == Tier::Quick { vec![Fault::Eacces, Fault::Kill] } else { vec![Fault::Eio, Fault::Enospc, Fault::Eacces, Fault::Kill] }
             } else if tier == Tier::Quick {
                 vec![Fault::Enospc, Fault::Kill]
